@@ -1129,12 +1129,14 @@ Lemma dup_target_refuted :
                /\ ~ BadLine st_dup k_main (fimports root).
 Proof.
   eexists. split; [vm_compute; reflexivity|]. split; [vm_compute; reflexivity|].
-  intros (k & i & Hr & Hb). cbn [fimports] in Hr.
-  assert (Hki : k = kp (s "/p/x.graphql") /\ i = imp (s "./x.graphql") (names [s "FA"; s "FA"])).
-  { induction Hr as [i Hi | k i f j _ IH Hl Hj].
+  assert (Hall : forall k i,
+             RL st_dup k_main [imp (s "./x.graphql") (names [s "FA"; s "FA"])] k i ->
+             k = kp (s "/p/x.graphql") /\ i = imp (s "./x.graphql") (names [s "FA"; s "FA"])).
+  { intros k i Hr. induction Hr as [i Hi | k i f j _ IH Hl Hj].
     - destruct Hi as [<-|[]]. split; vm_compute; reflexivity.
-    - destruct IH as [-> ->]. vm_compute in Hl. inversion Hl; subst f. destruct Hj. }
-  destruct Hki as [-> ->]. vm_compute in Hb. congruence.
+    - destruct IH as [Hk Hi]. subst k i. vm_compute in Hl. injection Hl as Hf. subst f. destruct Hj. }
+  intros (k & i & Hr & Hb). destruct (Hall k i Hr) as [Hk Hi]. subst k i.
+  vm_compute in Hb. congruence.
 Qed.
 
 (** the second line to an already visited file is not checked *)
@@ -1213,7 +1215,37 @@ Definition rec2' : file := {| fdefs := fdefs rec2; fimports := rev (fimports rec
 Definition st_rec' : store :=
   [(k_main, main_rec'); (kp (s "/p/rec/frag1.graphql"), rec1); (kp (s "/p/rec/frag2.graphql"), rec2');
    (kp (s "/p/w.graphql"), w_file)].
-Example order_changes_sequence_not_set :
-  resolve_imports st_rec' k_main main_rec'
-  = inr [Def false (s "Q") 0; frag (s "W1") 300; frag (s "W2") 301; frag (s "Frag1") 100; frag (s "Frag2") 200].
-Proof. vm_compute. reflexivity. Qed.
+Example permuted_lines_example :
+  store_perm st_rec st_rec' /\ file_perm main_rec main_rec'
+  /\ resolve_imports st_rec' k_main main_rec'
+     = inr [Def false (s "Q") 0; frag (s "W1") 300; frag (s "W2") 301; frag (s "Frag2") 200; frag (s "Frag1") 100].
+Proof.
+  split; [|split; [|vm_compute; reflexivity]].
+  - repeat constructor; cbn; apply Permutation_rev.
+  - split; [reflexivity | apply Permutation_rev].
+Qed.
+
+(** * The unguarded statements fail on the current code *)
+Lemma exact_full_refuted : ~ imports_exact_full.
+Proof.
+  intros H. destruct diamond_refuted as (Hres & Hclo & _).
+  destruct (H _ _ _ _ Hres) as [Hset _]. apply Hset in Hclo.
+  vm_compute in Hclo. destruct Hclo as [E|[E|[E|[]]]]; discriminate.
+Qed.
+
+Lemma exact_full_refuted_nodup : ~ imports_exact_full.
+Proof.
+  intros H. destruct root_cycle_refuted as (Hres & Hnd & _).
+  destruct (H _ _ _ _ Hres) as [_ Hn]. exact (Hnd Hn).
+Qed.
+
+Lemma error_iff_full_refuted : ~ imports_error_iff_full.
+Proof.
+  intros H. destruct skipped_error_refuted as ((ds & Hres) & Hbad).
+  apply H in Hbad. destruct Hbad as (e & He & _). congruence.
+Qed.
+
+Lemma no_panic_full_refuted : ~ imports_no_panic_full.
+Proof.
+  intros H. destruct dup_target_refuted as (root & _ & Hp & _). exact (H _ _ _ Hp).
+Qed.
